@@ -13,8 +13,8 @@ MANIFEST = dict(
     design='5/C01',
 )
 GEN = ["Errors"]
-SUPP_GEN = ["AwaitChain"]
-SUPP_THEOREMS = ["c01_chain_regenerated"]
+SUPP_GEN = ["AwaitChain", "ClientOps"]
+SUPP_THEOREMS = ["c01_chain_regenerated", "c01_client_shape_regenerated"]
 THEOREMS = [
     "c01_result_sound", "c01_never_foreign", "c01_foreign_kinds", "c01_timeout_complete",
     "c01_complete", "c01_single_request_written", "c01_id_type_sensitive", "c01_siblings_independent",
@@ -303,6 +303,17 @@ class ClientCalls(Suite):
 
     def cases(self, ctx, budget):
         rng = ctx.sub_rng(self.name, budget)
+        try:
+            import inspect
+            from chuk_mcp.client.client import MCPClient
+            extra = [n for n, f in vars(MCPClient).items() if inspect.iscoroutinefunction(f) and not n.startswith("_")
+                     and n != "initialize" and n not in C.OPS]
+            if extra:
+                msg = f"INFO property=C01 client-calls: operations of MCPClient the harness has no script for (not driven): {sorted(extra)}"
+                print(msg)
+                ctx.notes.append(msg)
+        except Exception:
+            pass
         sup = self.dflt()["supported"]
         out = []
         k = [0]
